@@ -211,6 +211,10 @@ def gen_jobs(logics, examples, tier, seed):
             # possibility and its witness at one world): each access node must be justified on its own
             for a in ('b:MLa:MLNa', 'c:MLa:MNa', 'c:KMLaMLNa', 'b:a:Ma:Lb', 'b:MMa:MLNa:La', 'Mb:LMb:MMa'):
                 jobs.append(dict(logic=n, argstr=a, kind='frames'))
+        if L['modal'] and L['quantified']:
+            # sibling branches with different access nodes and a box that reaches the leaf worlds late (through a quantifier)
+            for a in ('c:MANLNFmb:MFm:VxLLNFx', 'c:MAMFmb:MFn:VxLNFx', 'c:AMFmMGm:VxLKNFxNGx:MHm'):
+                jobs.append(dict(logic=n, argstr=a, kind='frames'))
         for e in rng.sample(list(examples), n_opt):
             for go, ro in itertools.product([True, False], repeat=2):
                 if go and ro:
